@@ -8,3 +8,11 @@ PROPERTY = "C02"
 CONTRACTS = R.select([R.marginal_inmem, R.full_inmem] + R.rejection_inmem + R.rejection_file, {"C02"})
 CALLEES = {**R.INMEM_CALLEES, **R.FILE_CALLEES}
 LIB = filemodel.install_repo_models({})
+
+# the file-path plumbing below rejection_sample_helper: rows reach the kernel, and come back, in the order of the index array
+from . import workers as _W  # noqa: E402
+
+CONTRACTS += R.select(_W.CHAIN_CONTRACTS, {"C02"})
+CALLEES.update({k: v for k, v in _W.CHAIN_CALLEES.items() if k not in CALLEES or "run_worker" in k or "read_batch" in k})
+LIB.update(_W.LIB)
+LEMMAS = ["Partition.lean"]
